@@ -519,3 +519,51 @@ MUTANTS += [
         {"file": L, "old": _LEEDS4_OLD, "new": "            rate = self._photolaw(re1, self._selfshielded, 0)\n"},
         {"file": L, "old": _LEEDS_DEF, "new": _leeds_helper('["H2", "CO", "N2", "H2+"]')}], "rules": ["R3"]},
 ]
+
+# ---- spellings accepted since the round-5 benign sets (each also as a seeded defect written in the new spelling) ----
+G = "naunet/grains/grain.py"
+_CLS_ATTR_OLD = '    format = "naunet"\n'
+_BEAUT_FOLD = '        rate = reduce(lambda acc, fix: acc.replace(fix[0], fix[1]), self._sign_fixes, rate_string)\n'
+
+
+def _sign_table(mm):
+    return _CLS_ATTR_OLD + '\n    _sign_fixes = (("++", "+"), ("--", "' + mm + '"), ("+-", "-"), ("-+", "-"))\n'
+
+
+_KIDA_HEAD = '    def rateexpr(self, grain: Grain = None) -> str:\n        a = self.alpha\n'
+_KIDA_TAIL = '        rate = self._beautify(rate)\n        return rate\n\n    def _parse_string(self, react_string) -> None:\n        self.source = "kida"'
+_KIDA_ARM1 = '        if formula == 1:\n            rate = f"{a} * zeta"\n        elif formula == 2:\n'
+
+
+def _kida_pipeline(outer):
+    """rateexpr = clean-up of a private helper that holds the whole chain (one arm as a guard clause, the refusing arms inside)"""
+    return [{"file": K, "old": _KIDA_HEAD, "new": '    def rateexpr(self, grain: Grain = None) -> str:\n        return ' + outer + '\n\n    def _law(self) -> str:\n        a = self.alpha\n'},
+            {"file": K, "old": _KIDA_ARM1, "new": '        if formula == 1:\n            return f"{a} * zeta"\n        if formula == 2:\n'},
+            {"file": K, "old": _KIDA_TAIL, "new": '        return rate\n\n    def _parse_string(self, react_string) -> None:\n        self.source = "kida"'}]
+
+
+_GRAIN_ARMS = [("GRAIN_RECOMINE", "rate_recombination"), ("GRAIN_FREEZE", "rate_depletion"), ("GRAIN_DESORB_THERMAL", "rate_thermal_desorption"),
+               ("GRAIN_DESORB_PHOTON", "rate_photon_desorption"), ("GRAIN_DESORB_COSMICRAY", "rate_cosmicray_desorption"), ("GRAIN_DESORB_H2", "rate_h2_desorption"),
+               ("SURFACE_TWOBODY", "rate_surface_twobody"), ("GRAIN_DESORB_REACTIVE", "rate_reactive_desorption"), ("GRAIN_ECAPTURE", "rate_electron_capture")]
+_GRAIN_CHAIN = "".join(("        if" if i == 0 else "        elif") + f" rtype == ReactionType.{t}:\n            rate = self.{m}(reac)\n\n" for i, (t, m) in enumerate(_GRAIN_ARMS)) \
+    + "        else:\n            raise ValueError("
+_GRAIN_SCAN = ("        for known, builder in self._builders:\n            if rtype == known:\n                rate = getattr(self, builder)(reac)\n                break\n\n"
+               "        else:\n            raise ValueError(")
+_GRAIN_DEF = "    def rateexpr(self, reac: Reaction) -> str:\n        rtype = reac.reaction_type\n"
+
+
+def _grain_table(skip=None):
+    return [{"file": G, "old": _GRAIN_CHAIN, "new": _GRAIN_SCAN},
+            {"file": G, "old": _GRAIN_DEF, "new": "    _builders = (\n" + "".join(f'        (ReactionType.{t}, "{m}"),\n' for t, m in _GRAIN_ARMS if t != skip) + "    )\n\n" + _GRAIN_DEF}]
+
+
+BENIGN += [
+    {"name": "beautify-fold-over-class-table", "edits": [{"file": R, "old": _BEAUT_OLD, "new": _BEAUT_FOLD}, {"file": R, "old": _CLS_ATTR_OLD, "new": _sign_table("+")}]},
+    {"name": "kida-chain-in-private-helper", "edits": _kida_pipeline("self._beautify(self._law())")},
+    {"name": "grain-chain-as-class-table-scan", "edits": _grain_table()},
+]
+MUTANTS += [
+    {"name": "beautify-fold-class-table-wrong-sign", "edits": [{"file": R, "old": _BEAUT_OLD, "new": _BEAUT_FOLD}, {"file": R, "old": _CLS_ATTR_OLD, "new": _sign_table("-")}], "rules": ["R1"]},
+    {"name": "kida-helper-result-not-cleaned", "edits": _kida_pipeline("self._law()"), "rules": ["R1"]},
+    {"name": "grain-class-table-missing-type", "edits": _grain_table("GRAIN_DESORB_H2"), "rules": ["R2"]},
+]
